@@ -453,6 +453,22 @@ def gen_c20(rnd, tier):
             items.append({"op": "barrier", "n": rounds})
             tasks["t%d" % (i + 1)] = items
         out.append({"tasks": tasks})
+    # contention on the library's compare-and-swap loop (swap/update): every task swaps its own values into the
+    # same one or two keys without synchronisation; afterwards the versions tell how many swaps took effect
+    for _ in range(6 if tier == "quick" else 100):
+        nt = rnd.randint(2, 4)
+        keys = [["cnt"], ["cnt", "x"]][:rnd.randint(1, 2)]
+        tasks = {}
+        for i in range(nt):
+            items = [{"op": "barrier", "n": 0}]
+            for j in range(rnd.randint(2, 5)):
+                items.append({"op": "swap", "key": rnd.choice(keys), "val": "t%d.%d" % (i + 1, j)})
+                if rnd.random() < 0.2:
+                    items.append({"op": "cget", "key": rnd.choice(keys)})
+            items.append({"op": "barrier", "n": 1})
+            items += [{"op": "cget", "key": k} for k in keys]
+            tasks["t%d" % (i + 1)] = items
+        out.append({"tasks": tasks})
     return out
 
 
